@@ -37,3 +37,34 @@ Example C11_refuted_unfixed :
   end.
 Proof. vm_compute. auto. Qed.
 Print Assumptions C11_refuted_unfixed.
+
+(* ---- what the gate buys: the whole chain, from requests to values read back.
+   A history of valid requests (power-of-two alignments), the module generated from it passes its own gate
+   in the world it is compiled in (sizes, alignments, Copy-ness of the real types; any drop glue), a capacity
+   covering the published one: then a record built by `new` in any variant gives every value back - the type
+   information the layout was computed from is, by the gate, the real one. *)
+From Coq Require Import Lia.
+From Truc.Model Require Import Exec Ops.
+From Truc.Proofs Require Import BuilderInv LayoutThms ExecP Holds Link.
+Theorem C11_gate_to_values : forall h cfg items w (drops : nat -> bool) rt cap m,
+  hist_ok h -> pow2_hist h -> rt_ok rt = true ->
+  let b := run h in let ds := b_ds b in
+  gen (ds, b_vs b) cfg = Some items -> accepts w items = true ->
+  let TI := fun t => mkTi (w_size w t) (w_align w t) (drops t) in
+  max_size (ds, b_vs b) = Some m -> (m <= cap)%N ->
+  forall v, In v (b_vs b) -> NoDup (map (fun i => (Gen.of ds i, Gen.ty ds i)) v) ->
+  forall vid vals, exists r,
+    op_new ds TI rt (max_type_align (ds, b_vs b)) cap vid v vals = Ok (ORecord r, []) /\
+    forall i mode, In i v -> op_get ds TI rt r i mode = Ok (Some (vals i)).
+Proof.
+  intros h cfg items w drops rt cap m Hh Hp RT b ds G Acc TI Hm Hcap v Hv Hk vid vals.
+  assert (HTI : forall v0 i, In v0 (b_vs b) -> In i v0 ->
+            ti_size (TI (d_ty (getd ds i))) = d_size (getd ds i) /\ ti_align (TI (d_ty (getd ds i))) = d_align (getd ds i)).
+  { intros v0 i Hv0 Hi. destruct (gate_sound (ds, b_vs b) cfg items w G Acc v0 i Hv0 Hi) as (E1 & E2 & _).
+    simpl in E1, E2. unfold TI. simpl. split; congruence. }
+  assert (L : layout_ok ds TI (max_type_align (ds, b_vs b)) cap v).
+  { apply (layout_ok_of_run h Hh Hp TI HTI cap); eauto. }
+  destruct (new_holds ds TI rt _ cap RT v L vid vals) as (r & E & H).
+  exists r. split; [exact E|]. intros i mode Hi. exact (get_holds ds TI rt _ cap RT v L vals r i mode H Hi).
+Qed.
+Print Assumptions C11_gate_to_values.
